@@ -510,6 +510,10 @@ def families() -> t.List[t.Tuple[str, str, str, t.Callable[[int], str], t.List[i
         ("filter nested and, bad leaf", "filter", "depth", lambda d: "(&(a=b)" * d + "(=b)" + ")" * d, depths),
         ("filter nested or, unclosed", "filter", "depth", lambda d: "(|" * d + "(a=b)", depths),
         ("filter nested, missing paren", "filter", "depth", lambda d: "(&" * d + "(a=b)" + ")" * (d - 1), depths),
+        ("filter nested and, sibling after, bad escape leaf", "filter", "depth", lambda d: "(&" * d + "(cn=bad\\zz)" + "(sn=x))" * d, depths),
+        ("filter nested not inside and, sibling after, bad leaf", "filter", "depth", lambda d: "(&(!" * d + "(=b)" + ")(a=b))" * d, depths[:14]),
+        ("filter nested and, two children per level, valid", "filter", "depth", lambda d: "(&(a=b)" * d + "(c=d)" + ")" * d, depths),
+        ("filter nested or, sibling after, valid", "filter", "depth", lambda d: "(|" * d + "(c=d)" + "(a=b))" * d, depths),
         ("oc many extensions", "oc", "size", lambda n: "( 1.2" + " X-a 'v'" * n + " )", sizes),
         ("oc many extension values", "oc", "size", lambda n: "( 1.2 X-a (" + " 'v'" * n + " ) )", sizes),
         ("oc long description", "oc", "size", lambda n: "( 1.2 DESC '" + "x" * n + "' )", sizes),
@@ -527,6 +531,10 @@ def families() -> t.List[t.Tuple[str, str, str, t.Callable[[int], str], t.List[i
         ("receive nested not filters, invalid UTF-8 leaf", "recv", "depth", lambda d: _search_pdu((lambda f: [f := _tlv(0xA2, f) for _ in range(d)][-1])(_tlv(0x87, b"\xff\xfe"))).hex(), depths),
         ("receive nested and filters, wrong-tag leaf", "recv", "depth", lambda d: _search_pdu((lambda f: [f := _tlv(0xA0, f) for _ in range(d)][-1])(_tlv(0xA3, _tlv(0x02, b"\x01") + _tlv(0x04, b"v")))).hex(), depths),
         ("receive nested or filters, truncated leaf", "recv", "depth", lambda d: _search_pdu((lambda f: [f := _tlv(0xA1, f) for _ in range(d)][-1])(_tlv(0xA3, _tlv(0x04, b"cn")))).hex(), depths),
+        ("receive nested and filters, two children per level, valid", "recv", "depth",
+         lambda d: _search_pdu((lambda f: [f := _tlv(0xA0, _tlv(0x87, b"cn") + f) for _ in range(d)][-1])(_tlv(0x87, b"sn"))).hex(), depths),
+        ("receive nested or filters, nested child first, valid", "recv", "depth",
+         lambda d: _search_pdu((lambda f: [f := _tlv(0xA1, f + _tlv(0x87, b"cn")) for _ in range(d)][-1])(_tlv(0x87, b"sn"))).hex(), depths),
         ("receive many controls", "recv", "size", lambda n: _tlv(0x30, _tlv(2, b"\x01") + _tlv(0x42, b"") + _tlv(0xA0, _tlv(0x30, _tlv(4, b"1.2")) * n)).hex(), sizes),
     ]
     return F
